@@ -47,6 +47,18 @@ fn read_proof_values(serialized: &[u8]) -> Result<RLNProofValues> {
     Ok(proof_values)
 }
 
+/// Checks that the five public values at `serialized[128..288]` are canonically encoded, i.e. that none of them
+/// is the encoding of `v + k*p`: `bytes_le_to_fr` reduces silently, so without this check every message
+/// would have several accepted encodings (and e.g. several distinct "nullifier" byte strings).
+fn check_canonical_proof_values(serialized: &[u8], proof_values: &RLNProofValues) -> Result<()> {
+    if serialize_proof_values(proof_values)[..] != serialized[PROOF_SIZE..PROOF_AND_VALUES_SIZE] {
+        return Err(Report::msg(
+            "proof values are not canonically encoded field elements",
+        ));
+    }
+    Ok(())
+}
+
 /// Reads `[ signal_len<8> | signal<var> ]` at `serialized[288..]`, checking the declared length against the buffer.
 fn read_signal(serialized: &[u8]) -> Result<&[u8]> {
     let start = PROOF_AND_VALUES_SIZE + 8;
@@ -844,6 +856,7 @@ impl RLN {
         let mut input_byte: Vec<u8> = Vec::new();
         input_data.read_to_end(&mut input_byte)?;
         let proof_values = read_proof_values(&input_byte)?;
+        check_canonical_proof_values(&input_byte, &proof_values)?;
         let proof = ArkProof::deserialize_compressed(&mut Cursor::new(&input_byte[..PROOF_SIZE]))?;
 
         let verified = verify_proof(&self.verification_key, &proof, &proof_values)?;
@@ -1001,6 +1014,7 @@ impl RLN {
         let mut serialized: Vec<u8> = Vec::new();
         input_data.read_to_end(&mut serialized)?;
         let proof_values = read_proof_values(&serialized)?;
+        check_canonical_proof_values(&serialized, &proof_values)?;
         let signal = read_signal(&serialized)?;
         let proof =
             ArkProof::deserialize_compressed(&mut Cursor::new(&serialized[..PROOF_SIZE].to_vec()))?;
@@ -1067,6 +1081,7 @@ impl RLN {
         let mut serialized: Vec<u8> = Vec::new();
         input_data.read_to_end(&mut serialized)?;
         let proof_values = read_proof_values(&serialized)?;
+        check_canonical_proof_values(&serialized, &proof_values)?;
         let signal = read_signal(&serialized)?;
         let proof =
             ArkProof::deserialize_compressed(&mut Cursor::new(&serialized[..PROOF_SIZE].to_vec()))?;
